@@ -256,13 +256,16 @@ def run_err(spec, stt):
 SUBS = [
     Sub("conversions", dp_case(), run_dp,
         "dual-pol signals in both bases, c8/c16, nchan 1..5, 0..2 trailing dims, NumPy/Dask, data {noise, pure X/Y/L/R, zeros, mixed "
-        "scales}, amplitude scales 1e-10..1e8; non-trivial = a sample with all four of Re/Im X, Y non-zero and |X| != |Y|",
+        "scales}, amplitude scales 1e-10..1e8; for Dask data also: the same array read in both bases, converted in opposite directions, all results "
+        "computed in one graph; non-trivial = a sample with all four of Re/Im X, Y non-zero and |X| != |Y|",
         quick=1500, thorough=30000, pieces_quick=4),
     Sub("long_signals", huge_case(), run_dp,
         "the same conversion checks on signals of 65535..131073 samples (block boundaries at 2^16); non-trivial as above", quick=8, thorough=60,
         pieces_quick=2, pieces_thorough=6),
     Sub("call_sequences", seq_case(), run_seq,
-        "2..5 conversions called on the same object; each repeated call must give bit-identical results and leave the object untouched; "
+        "2..6 steps on the same object (NumPy or Dask): conversions -- each repeated call must give bit-identical results and leave the object "
+        "untouched -- interleaved with z *= 2, np.add(z, 1, out=z) and pol_type assignment, after which every conversion must equal that of a fresh "
+        "signal holding the current samples and basis; "
         "non-trivial = some conversion repeated", quick=400, thorough=8000),
     Sub("pol_type_refusals", G.signal_spec(classes=["DualPolarizationSignal"], nmin=1, nmax=4, nchan_max=2, max_trailing=0), run_err,
         "pol_type outside {linear, circular} raises at construction and assignment", quick=30, thorough=300, pieces_quick=1),
